@@ -122,6 +122,7 @@ def lib_seal(mode, ciph, key, nonce, T, aad, pt):
 def lib_open(mode, ciph, key, nonce, T, aad, ct, tag, path, decl=None):
     """One decryption-with-verification on a fresh object.  -> ('ok', plaintext) | ('exc', exception)
     paths: oneshot = update(aad); decrypt_and_verify(ct, tag)
+           inplace = update(aad); decrypt(buf, output=buf) with buf a bytearray holding ct; verify(tag)
            split   = update()* ; decrypt()* ; verify()     (CCM: lengths of the received data declared)
            hex     = update(aad); decrypt(ct); hexverify(hex(tag))
            declared (CCM only) = the receiver declared assoc_len/msg_len = decl beforehand (the lengths
@@ -147,6 +148,15 @@ def lib_open(mode, ciph, key, nonce, T, aad, ct, tag, path, decl=None):
                 pt += c.decrypt()
             c.verify(tag)
             return ("ok", pt)
+        if path == "inplace":
+            # the received ciphertext is decrypted into its own buffer
+            c = _new(mode, ciph, key, nonce, T)
+            if aad:
+                c.update(aad)
+            buf = bytearray(ct)
+            c.decrypt(buf, output=buf)
+            c.verify(tag)
+            return ("ok", bytes(buf))
         if path == "hex":
             c = _new(mode, ciph, key, nonce, T)
             if aad:
@@ -701,7 +711,8 @@ def gen_siv(g, T):
 # ---------------------------------------------------------------------------
 # the oracle for one received tuple
 # ---------------------------------------------------------------------------
-PATHS_ALL = ("oneshot", "split", "hex")
+PATHS_OCB = ("oneshot", "split", "hex")             # OCB has no output= parameter
+PATHS_ALL = PATHS_OCB + ("inplace",)
 PATHS_ONE = ("oneshot",)
 PATHS_CCM = PATHS_ALL + ("declared",)
 
@@ -991,7 +1002,7 @@ def run_shard(shard, acc, every):
                 continue
             seen.add(r)
             acc.count("candidates")
-            paths = PATHS_ONE if (mode == "SIV" or not allp) else (PATHS_CCM if mode == "CCM" else PATHS_ALL)
+            paths = PATHS_ONE if (mode == "SIV" or not allp) else (PATHS_CCM if mode == "CCM" else PATHS_OCB if mode == "OCB" else PATHS_ALL)
             ea = check_candidate(mode, ciph, T, key, nonce, aad, ct, tag, kind, detail, paths, acc, pol,
                                  decl=(len(g.aad), len(g.pt)) if mode == "CCM" else None)
             if kind == "authentic" and detail == "" and ea:
@@ -1290,7 +1301,7 @@ def run(ctx):
         ctx.require(acc_ok, "mode %s: no authentic tuple was ever accepted" % m)
         ctx.require(len({c[1] for c in rej_ok}) >= 8, "mode %s: fewer than 8 kinds of forged tuples rejected" % m)
         if m not in ("SIV", "KW", "KWP"):
-            for p in (PATHS_CCM if m == "CCM" else PATHS_ALL):
+            for p in (PATHS_CCM if m == "CCM" else PATHS_OCB if m == "OCB" else PATHS_ALL):
                 ctx.require([c for c in classes if c[0] == m and c[2] == p and c[4] == "accept" and c[3]]
                             and [c for c in classes if c[0] == m and c[2] == p and c[4] != "accept"],
                             "mode %s: path %s did not both accept and reject" % (m, p))
